@@ -186,7 +186,7 @@ func init() {
 	})
 	reg(&Prop{ID: "C08", Level: "fault_enumeration",
 		Quick:    Tier{Cases: 480, PerJob: 30, Seconds: 80},
-		Thorough: Tier{Cases: 48000, PerJob: 500, Seconds: 1500},
+		Thorough: Tier{Cases: 16000, PerJob: 500, Seconds: 1500},
 		Rule:     "part A (local store): one case = workload {ChopFile, Copy, n+1 tasks storing the same chunks at once} x compressed/uncompressed LocalStore x n in 1..4 x blob of 1..12 chunks; a seeded schedule in which every file-system call is a scheduling point is recorded, then re-run with process death at EVERY file-system point k (<= 120 points; 80 sampled otherwise), each in two variants: death exactly at the point, and death during the write that just happened (a file that was created or grew in the last step is cut to a tape-chosen shorter length: torn write); after each death an independent validator (klauspost zstd + SHA512/256, not desync) checks that every file under a chunk name decodes and hashes to its name and everything else is a .tmp-cacnk* file, Prune removes exactly the temporary files, and (every 7th point) a restart completes the work; sub_evaluations = deaths; part B (1/4 of the cases): the real `desync extract` binary (with/without --in-place, with/without --seed, -n 1 or 4, destination absent / old version / other content) is SIGKILLed while GET request k is held by a gated loopback chunk server, for EVERY k: without --in-place the destination must be untouched, with it a re-run must complete correctly without refetching chunks already written; part C (1/8 of the cases): the real binary (extract, extract --in-place, chop, cache, make into a local store; -n 1 or 3; extract also with --print-stats) runs as a ptrace tracee of the harness, every system call of every thread is inspected, and the process is SIGKILLed in front of the k-th call that changes the file system (open with O_CREAT/O_TRUNC, write/pwrite to a file of the case, truncate, rename, unlink, mkdir, chmod, chown, fsync, link, utimensat, fallocate, clone ioctls, xattr calls), for EVERY k when there are <= 50 such calls, else the first 4, the last 12 and 30 tape-chosen ones: extract must leave the destination in its previous state or complete, extract --in-place must complete on a re-run, the target store must pass the independent validator and a re-run must complete; distinct = distinct (workload, n, format, schedule hash, number of points); non-trivial = a death was injected",
 		Assumptions: []string{
 			"process death = freezing every task at a file-system point: equivalent to SIGKILL for file contents (page cache survives, no user-space buffering on this path); power loss is out of scope of the property",
